@@ -40,9 +40,9 @@ theorem less_guards : guardsOf "heapQueue.Less" =
 
 -- ---------------------------------------------------------------- Res model (C02, C06, C09)
 theorem reserve_skeleton : skeletonOf "worker.reserve" =
-    ["atomic:w.curProcessing:Load", "atomic:w.concurrency:Load", "atomic:w.curProcessing:CompareAndSwap", "atomic:w.status:Load"] := by decide
+    ["atomic:w.curProcessing:Load", "atomic:w.concurrency:Load", "atomic:w.curProcessing:CompareAndSwap", "atomic:w.status:Load", "atomic:w.concurrency:Load"] := by decide
 theorem reserve_guards : guardsOf "worker.reserve" =
-    ["if:c>=w.concurrency.Load()", "if:w.curProcessing.CompareAndSwap(c,c+1)", "if:s==paused||s==stopped"] := by decide
+    ["if:c>=w.concurrency.Load()", "if:w.curProcessing.CompareAndSwap(c,c+1)", "if:s==paused||s==stopped||taken>w.concurrency.Load()"] := by decide
 theorem release_skeleton : skeletonOf "worker.release" = ["atomic:w.curProcessing:Add"] := by decide
 theorem barrier_skeleton : skeletonOf "worker.WaitUntilFinished$1" =
     ["atomic:w.status:Load", "atomic:w.curProcessing:Load", "atomic:w.curProcessing:Load"] := by decide
